@@ -31,7 +31,7 @@ RULE = ('one evaluation = one seeded run: a single-client sequence of 10-120 Deq
 RULE += ' ' + "Sequences on a Deque obtained from a FanoutCache / DjangoCache also contain the parent's own clear / expire / cull / evict / set / delete calls."
 RULE += ' ' + "The parent's calls include looking the same name up again with another maxlen; in 40 % of the runs with a parent the name holds ':' '*' '?' '|' '/' and sibling objects under colliding spellings hold marker items."
 ASSUMPTIONS = ['values compare by == as collections.deque does; NaN values are not used']
-PROBES = ('own_temporary_directory', 'lifecycle', 'maxlen_discard', 'from_fanout', 'from_django', 'parent_calls', 'named_with_special_characters', 'lock_wait')
+PROBES = ('own_temporary_directory', 'lifecycle', 'maxlen_discard', 'from_fanout', 'from_django', 'parent_calls', 'named_with_special_characters', 'changed_through_another_handle', 'lock_wait')
 TECHNIQUE = 'deterministic simulation (seeded file/temp names, simulated processes) + differential testing against collections.deque; seeded schedules + linearizability for concurrent use'
 LEVEL_TEXT = ('seeded exploration of method sequences with lifecycle events, each call compared with collections.deque; concurrent '
               'producer/consumer interleavings are explored by the seeded scheduler and decided by a linearizability search.')
@@ -108,6 +108,10 @@ def gen_case(seed, tier):
             op = {'op': 'maxlen', 'n': rng.choice((None, 0, 1, 3, 5))}
         elif r < 0.93:
             op = {'op': 'rotate_bad'}
+        elif r < 0.95:
+            op = {'op': 'via_other', 'inner': rng.choice(({'op': 'delitem', 'i': rng.randint(-4, 4)}, {'op': 'remove', 'v': rng.choice(SMALL)},
+                                                          {'op': 'setitem', 'i': rng.randint(-4, 4), 'v': rng.choice(SMALL)},
+                                                          {'op': 'popleft'}, {'op': 'appendleft', 'v': rng.choice(SMALL)}))}
         else:
             op = {'op': rng.choice(('reopen', 'pickle', 'copy', 'restart'))}
         prog.append(op)
@@ -300,6 +304,14 @@ def run_seq(case):
                 parent_call(parent, op['call'], subname)
                 probes['parent_calls'] = probes.get('parent_calls', 0) + 1
                 got = want = None
+            elif name == 'via_other':
+                # another live handle on the same directory (a copy, another process) removes / changes an element in the
+                # middle; this handle goes on afterwards
+                other = dc.Deque(directory=directory, maxlen=maxlen)
+                pair = apply_both(other, ref, op['inner'])
+                got, want = pair[0], pair[1]
+                other.cache.close()
+                probes['changed_through_another_handle'] = probes.get('changed_through_another_handle', 0) + 1
             elif name == 'pickle':
                 dq = pickle.loads(pickle.dumps(dq))
                 if dq.maxlen != (float('inf') if maxlen is None else maxlen):
